@@ -18,7 +18,7 @@ if os.path.exists(nap):
 checks, na = [], []
 for p in props:
     pid = p["id"]
-    if pid in units:
+    if pid in units and os.path.exists(os.path.join(ROOT, 'evidence', pid + '.json')):
         u = units[pid]
         checks.append({
             "property_id": pid,
